@@ -199,14 +199,16 @@ func (n *admNotify) waitPull(from int, stream string) (admEvent, bool) {
 	}
 }
 
-func (n *admNotify) OnServerStart(info base.LalInfo)         {}
-func (n *admNotify) OnUpdate(info base.UpdateInfo)           {}
-func (n *admNotify) OnPubStart(info base.PubStartInfo)       { n.add("PS", info.SessionEventCommonInfo) }
-func (n *admNotify) OnPubStop(info base.PubStopInfo)         { n.add("PE", info.SessionEventCommonInfo) }
-func (n *admNotify) OnSubStart(info base.SubStartInfo)       { n.add("SS", info.SessionEventCommonInfo) }
-func (n *admNotify) OnSubStop(info base.SubStopInfo)         { n.add("SE", info.SessionEventCommonInfo) }
-func (n *admNotify) OnRelayPullStart(info base.PullStartInfo) { n.add("RS", info.SessionEventCommonInfo) }
-func (n *admNotify) OnRelayPullStop(info base.PullStopInfo)   { n.add("RE", info.SessionEventCommonInfo) }
+func (n *admNotify) OnServerStart(info base.LalInfo)   {}
+func (n *admNotify) OnUpdate(info base.UpdateInfo)     {}
+func (n *admNotify) OnPubStart(info base.PubStartInfo) { n.add("PS", info.SessionEventCommonInfo) }
+func (n *admNotify) OnPubStop(info base.PubStopInfo)   { n.add("PE", info.SessionEventCommonInfo) }
+func (n *admNotify) OnSubStart(info base.SubStartInfo) { n.add("SS", info.SessionEventCommonInfo) }
+func (n *admNotify) OnSubStop(info base.SubStopInfo)   { n.add("SE", info.SessionEventCommonInfo) }
+func (n *admNotify) OnRelayPullStart(info base.PullStartInfo) {
+	n.add("RS", info.SessionEventCommonInfo)
+}
+func (n *admNotify) OnRelayPullStop(info base.PullStopInfo)  { n.add("RE", info.SessionEventCommonInfo) }
 func (n *admNotify) OnRtmpConnect(info base.RtmpConnectInfo) {}
 func (n *admNotify) OnHlsMakeTs(info base.HlsMakeTsInfo)     {}
 
